@@ -420,42 +420,44 @@ func vkPersistScenarioFn(sc vkPScenario, side *vkPSide) sched.Scenario {
 			init[e] = true
 		}
 		seen := map[string]bool{strings.Join(vkMem(b), " "): true}
-		_, existed := vkReadLocal(dir)
+		installed, installedExists := vkReadLocal(dir) // the complete list currently in place
 		results := make([]int, len(sc.Threads))
 		plan := vos.NewPlan()
 		vos.Plan = plan
 		localPath := filepath.Join(dir, "local")
-		logged, dirty := 0, true
+		logged := 0
 		// At every scheduling point (= every possible interruption of the process) the
-		// list on disk must be a complete list that memory actually held at some moment.
-		// Every logged file operation has been executed when a monitor call sees it (vos
-		// logs right before executing, with no scheduling point in between); `local` is
-		// re-read whenever an operation naming it was logged since the last look.
+		// list on disk must be the complete list last put in place. vos logs an operation
+		// right before executing it and every operation is preceded by a scheduling point,
+		// so each monitor call sees at most one new, already executed, operation. A rename
+		// onto `local` installs a new list — which must be complete and one the blocklist
+		// held in memory; after any other operation naming `local` its bytes must be unchanged.
+		// (Judged on bytes and on entry SETS only: independent of map-iteration order.)
 		r.Monitor = func() string {
 			seen[strings.Join(vkMem(b), " ")] = true
 			for ; logged < len(plan.Log); logged++ {
-				if op := plan.Log[logged]; op.Path == localPath || op.Path2 == localPath {
-					dirty = true
+				op := plan.Log[logged]
+				if op.Fail || (op.Path != localPath && op.Path2 != localPath) {
+					continue
 				}
-			}
-			if !dirty {
-				return ""
-			}
-			dirty = false
-			content, ok := vkReadLocal(dir)
-			if !ok {
-				if existed {
-					return "the persisted list disappeared while an update was in flight"
+				content, ok := vkReadLocal(dir)
+				if op.Kind == "rename" && op.Path2 == localPath {
+					if !ok {
+						return "the persisted list does not exist right after a rename onto it"
+					}
+					ents, wf, why := vkParseLocal(content)
+					if !wf {
+						return fmt.Sprintf("a partial list was renamed into place (%s): %q", why, content)
+					}
+					if !seen[strings.Join(ents, " ")] {
+						return fmt.Sprintf("the list renamed into place %v is not a list the blocklist ever held in memory", ents)
+					}
+					installed, installedExists = content, true
+					continue
 				}
-				return ""
-			}
-			existed = true
-			ents, wf, why := vkParseLocal(content)
-			if !wf {
-				return fmt.Sprintf("mid-update the persisted list is partial (%s): %q", why, content)
-			}
-			if !seen[strings.Join(ents, " ")] {
-				return fmt.Sprintf("mid-update the persisted list %v (raw %q) is not a list the blocklist ever held in memory", ents, content)
+				if ok != installedExists || string(content) != string(installed) {
+					return fmt.Sprintf("mid-update (after %s of the list file itself) the persisted list is no longer the last complete one: an interruption now leaves a partial file", op.Kind)
+				}
 			}
 			return ""
 		}
@@ -673,6 +675,7 @@ func vkIdentityReplay(base string, entries, white []string) string {
 
 // vkFirstLine reduces a message to its stable class (text before the first detail).
 func vkFirstLine(s string) string {
+	s = strings.TrimPrefix(s, "monitor: ")
 	if i := strings.IndexAny(s, "\n([:"); i > 0 {
 		s = s[:i]
 	}
